@@ -30,3 +30,24 @@ for p in ALL:
         NOT_APPLICABLE[p] = _PENDING
 for e in ENGINES:
     e['serves_properties'] = sorted(CHECKS)
+
+_c('C02', 'exploration',
+   'bounded-exhaustive input enumeration against reference framing and a compositional all-or-nothing decoder oracle',
+   'Every packet list up to a length over representative packets (plus every length 0..18 and uniform lists to 100) is encoded by the real Payload and compared with the reference framing, decoded back plain and as d= form bodies; every string up to a length bound over a 14-symbol adversarial alphabet is decoded and must equal the list of per-segment decodings or fail as a whole; 16 accepted, 17 refused. Complete within the bounds.',
+   'Compositionality is judged against the real single-packet decoder, which C01 checks; longer random strings of the property text are not sampled (no sampling in this family).',
+   'DESIGN.md 5 C02')
+_c('C17', 'exploration',
+   'exhaustive enumeration of id windows under adversarial random sources',
+   'Windows of consecutively issued ids (2^18 quick, 2^24 thorough, across the counter wrap and from several start counters) are drawn from the real generate_id() with the OS random source replaced by constant, periodic and counter-cancelling stand-ins; shape, pairwise distinctness, >= 12 bytes requested per issue and verbatim embedding of those bytes are checked on every id.',
+   'The OS source is assumed to be a CSPRNG; start counters other than 0 are installed by assigning sequence_number.',
+   'DESIGN.md 5 C17')
+_c('C20', 'exploration',
+   'bounded-exhaustive path x mapping x endpoint enumeration on a real scratch tree against a routing reference; exhaustive lifespan event sequences',
+   'Every path of up to 4 (thorough 5) segments over an 11-symbol segment alphabet, with and without trailing slash, x 8 static mappings x 3 endpoints x wrapped app on/off is sent through the real WSGIApp and ASGIApp; who answered, which file (identified by unique content) and which content type are compared with the reference; all lifespan sequences of length <= 3 x 25 callback combinations.',
+   'For unclean paths only containment/fallback/no-exception are required; symlinks are not exercised; the Engine.IO server is a stub here (routing only).',
+   'DESIGN.md 5 C20')
+for p in list(NOT_APPLICABLE):
+    if p in CHECKS:
+        del NOT_APPLICABLE[p]
+for e in ENGINES:
+    e['serves_properties'] = sorted(CHECKS)
